@@ -89,10 +89,35 @@ def sweep():
     return out
 
 
+def benign_sweep():
+    """every stored benign refactoring against every check: no check may report a violation"""
+    base = "/verif/benign"
+    out = {}
+    for name in sorted(os.listdir(base)):
+        d = os.path.join(base, name)
+        if not os.path.isdir(d):
+            continue
+        rc, o = sh("git -C %s apply --check %s/patch.diff" % (REPO, d))
+        if rc != 0:
+            out[name] = {"applies": False}
+            continue
+        fired = check(d)
+        viol = {k: [r for r in v if r != "ANALYSIS-ERROR"] for k, v in fired.items()}
+        viol = {k: v for k, v in viol.items() if v}
+        undecided = sorted(k for k, v in fired.items() if "ANALYSIS-ERROR" in v)
+        out[name] = {"applies": True, "false_alarms": viol, "cannot_decide": undecided}
+        print(name, out[name], flush=True)
+    head = sh("git -C %s rev-parse --short HEAD" % REPO)[1].strip()
+    json.dump({"repo_head": head, "benign": out}, open(os.path.join(base, "RESULTS.json"), "w"), indent=1)
+    return out
+
+
 if __name__ == "__main__":
     cmd = sys.argv[1]
     if cmd == "sweep":
         sweep()
+    elif cmd == "benign":
+        benign_sweep()
     else:
         d = sys.argv[2]
         print(json.dumps(verify(d) if cmd == "verify" else check(d), indent=1))
